@@ -38,6 +38,10 @@ type descriptor struct {
 	// default, "expr", "xpath"): the activating token probes conditions written
 	// in different expression languages at one gateway
 	FlowLang []string `json:"flowLang,omitempty"`
+	// PropMask: bit i set = the condition of branch i reads an olive property
+	// declared on the process (getProp(name) == 1; the document declares 1 or 0
+	// according to Mask) instead of a variable; such a flow is written in expr
+	PropMask int `json:"propMask,omitempty"`
 }
 
 func task() *gen.Block { return &gen.Block{K: "task", Def: -1} }
@@ -55,6 +59,16 @@ func buildAST(d descriptor, vars map[string]any) *gen.Block {
 			vars[v] = d.Mask&(1<<i) != 0
 			if d.Raw&(1<<i) != 0 {
 				inc.Conds = append(inc.Conds, gen.Raw([]string{"undefinedVariable9 > 1", "1 + 1", "${x}"}[i%3]))
+			} else if d.PropMask&(1<<i) != 0 {
+				pv := int64(0)
+				if d.Mask&(1<<i) != 0 {
+					pv = 1
+				}
+				inc.Conds = append(inc.Conds, &gen.Cond{Op: "prop", Var: "pp_" + v, K: 1, PV: pv})
+				if len(inc.Langs) != d.NB {
+					inc.Langs = make([]string, d.NB)
+				}
+				inc.Langs[i] = "expr"
 			} else {
 				inc.Conds = append(inc.Conds, gen.BoolVar(v))
 			}
@@ -293,6 +307,9 @@ func TestC05Random(t *testing.T) {
 			}
 			d.Mask &^= d.Raw // an unevaluable condition is not true
 		}
+		if rapid.IntRange(0, 3).Draw(rt, "propertyConditions") == 0 {
+			d.PropMask = rapid.IntRange(1, 1<<nb-1).Draw(rt, "propMask") &^ d.Raw
+		}
 		pick := func(n int) int {
 			v := rapid.IntRange(0, n-1).Draw(rt, "pick")
 			d.Schedule = append(d.Schedule, v)
@@ -300,6 +317,9 @@ func TestC05Random(t *testing.T) {
 		}
 		out := run(rt, "TestC05Random", &d, pick)
 		cls := []string{fmt.Sprintf("nb=%d", nb), "lang=" + d.Lang, fmt.Sprintf("repeat=%d", d.Repeat), fmt.Sprintf("activated=%d", activated(d))}
+		if d.PropMask != 0 {
+			cls = append(cls, "propertyConditions")
+		}
 		if d.Loop > 0 {
 			cls = append(cls, "gatewaysReentered")
 		}
